@@ -348,6 +348,10 @@ where
 		}
 		// Removin
 		info!("Password change confirmed, removing old seed file.");
+		#[cfg(grin_wallet_verif)]
+		if grin_wallet_util::verif::point("seed_remove_bak") {
+			return Err(Error::IO("verif: injected failure".to_owned()));
+		}
 		fs::remove_file(backup_name).map_err(|e| Error::IO(e.to_string()))?;
 
 		Ok(())
